@@ -490,6 +490,10 @@ class _Eval:
         cond, swap = branch_polarity(cond)
         if swap:
             body, orelse = orelse, body
+        if cond[0] == "cmp" and cond[1] == "==" and cond[2][0] == "const" and cond[3][0] == "const" and isinstance(cond[2][1], str) and isinstance(cond[3][1], str):
+            # a test between two known texts (a parameter bound to a constant by the rule that asks): only the branch taken exists
+            self.block(body if cond[2][1] == cond[3][1] else orelse)
+            return
         a = self.fork()
         a.pc = self.pc + ((cond, True),)
         a.block(body)
